@@ -404,4 +404,15 @@ pub fn run(ctx: &Ctx) {
         Some((front_case("non_utf8", m, "read_error", 0, "invalid UTF-8 bytes inside a comment / string / anywhere"), true))
     });
     ctx.judge_all(prefix_tail_cases(ctx, ctx.n(1_500, 50_000)), Via::Cli, Some(&custom));
+    if ctx.tier == Tier::Thorough && worker_available() && !ctx.stopped() && crate::fuzzdrive::build(ctx) {
+        // Coverage-guided byte-level fuzzing of lexer + parser, seeded with
+        // the repository's scripts; the line bound is asserted in-target.
+        let seeds: Vec<Vec<u8>> = corp.iter().map(|s| s.clone().into_bytes()).collect();
+        let r = crate::fuzzdrive::campaign(ctx, "front", 12, 4, ctx.n(1, 250_000), 512, &seeds);
+        ctx.label_n("libFuzzer executions (front target)", r.executions);
+        for bytes in r.crashes {
+            let c = front_case("libfuzzer", bytes, "any", 0, "crash artifact of the front-end fuzz target");
+            ctx.judge(&c, true, Via::Cli, Some(&custom));
+        }
+    }
 }
